@@ -187,6 +187,19 @@ func checkCase(t stats.TB, part string, c *evmgen.Case, o *evmgen.Outcome) *repo
 				if _, existed := o.Before.ByAddr[changed[0]]; !existed && o.After.Get(changed[0]).Cmp(c.Tx.Value) <= 0 {
 					createOOG = true
 				}
+			} else if len(changed) > 1 {
+				// the init code moved value on before it failed to pay for its code (first seen at
+				// VERIF_SEED=1, thorough): the same case is executed once more with the tracer
+				// (access-list checks enforced, as without a tracer) only to learn how the
+				// creation frame ended
+				c2 := *c
+				c2.Mode = evmgen.ModeTracedEnforced
+				if o2, err := c2.Run(); err == nil && o2 != nil && o2.Tracer != nil {
+					t2 := o2.Tracer
+					if t2.Started && len(t2.Frames) > 0 && !t2.Frames[0].Failed && t2.Frames[0].CreateRejected(maxCode) == "codestore-oog" {
+						createOOG = true
+					}
+				}
 			}
 		}
 	}
